@@ -649,4 +649,585 @@ theorem idle_level {s : State} (hI : Inv A p s) {now : Rat} (h : s.last ≤ now)
 
 end
 
+
+/-! ### the small-step system: every execution is a sequential run with non-decreasing clock readings -/
+
+/-- the limiter state after a run -/
+def fin (A : Arith) (p : Params) : State → List Rat → State
+  | s, [] => s
+  | s, now :: rest => fin A p (allow A p s now).2 rest
+
+theorem fin_append (A : Arith) (p : Params) (now : Rat) :
+    ∀ (l : List Rat) (s : State), fin A p s (l ++ [now]) = (allow A p (fin A p s l) now).2
+  | [], _ => rfl
+  | x :: l, _ => by simp only [List.cons_append, fin]; exact fin_append A p now l _
+
+theorem trace_append (A : Arith) (p : Params) (now : Rat) :
+    ∀ (l : List Rat) (s : State),
+      trace A p s (l ++ [now]) = trace A p s l ++ [(now, (allow A p (fin A p s l) now).1)]
+  | [], _ => rfl
+  | _ :: l, _ => by
+    simp only [List.cons_append, trace, fin]
+    rw [trace_append A p now l _]
+
+theorem fin_inv {A : Arith} {q D : Rat} (hA : ArithOK A q D) {p : Params} (hV : Valid p q D) :
+    ∀ (l : List Rat) (s : State), Inv A p s → Inv A p (fin A p s l)
+  | [], _, h => h
+  | x :: l, _, h => fin_inv hA hV l _ (allow_inv hA hV h x)
+
+theorem sortedFrom_snoc {b : Rat} : ∀ {l : List Rat} {a : Rat}, sortedFrom a l → (∀ x ∈ l, x ≤ b) → a ≤ b →
+    sortedFrom a (l ++ [b])
+  | [], _, _, _, hab => ⟨hab, trivial⟩
+  | x :: l, _, hs, hl, _ =>
+    ⟨hs.1, sortedFrom_snoc hs.2 (fun y hy => hl y (List.mem_cons_of_mem _ hy)) (hl x (List.mem_cons_self ..))⟩
+
+theorem countIn_append (t0 t1 : Rat) : ∀ (l1 l2 : List Event),
+    countIn t0 t1 (l1 ++ l2) = countIn t0 t1 l1 + countIn t0 t1 l2
+  | [], l2 => by simp [countIn]
+  | e :: l1, l2 => by simp only [List.cons_append, countIn, countIn_append t0 t1 l1 l2]; omega
+
+theorem countIn_reverse (t0 t1 : Rat) : ∀ (l : List Event), countIn t0 t1 l.reverse = countIn t0 t1 l
+  | [] => rfl
+  | e :: l => by
+    rw [List.reverse_cons, countIn_append, countIn_reverse t0 t1 l]
+    simp only [countIn]; omega
+
+def doneEv (d : Done) : Event := (d.now, d.ok)
+
+/-- the event of the call that has updated the bucket but not returned yet -/
+def critEv : Option (Nat × Phase) → List Event
+  | some (_, .done _ now ok) => [(now, ok)]
+  | _ => []
+
+/-- all bucket updates so far, in order -/
+def sysEvs (c : Sys) : List Event := (c.log.reverse.map doneEv) ++ critEv c.crit
+
+def critInv (s0 : State) (clock : Rat) (nows : List Rat) : Option (Nat × Phase) → Prop
+  | none => True
+  | some (_, .held st) => st ≤ clock
+  | some (_, .read st now) => st ≤ now ∧ now ≤ clock ∧ (∀ x ∈ nows, x ≤ now) ∧ s0.last ≤ now
+  | some (_, .done st now _) => st ≤ now ∧ now ≤ clock
+
+/-- the configuration is the image of a sequential run over the clock readings `nows` -/
+structure SysInv (A : Arith) (p : Params) (s0 : State) (c : Sys) (nows : List Rat) : Prop where
+  lim : c.lim = fin A p s0 nows
+  sorted : sortedFrom s0.last nows
+  le_clock : ∀ x ∈ nows, x ≤ c.clock
+  base : s0.last ≤ c.clock
+  evs : sysEvs c = trace A p s0 nows
+  log : ∀ d ∈ c.log, d.start ≤ d.now ∧ d.now ≤ d.fin
+  crit : critInv s0 c.clock nows c.crit
+  pend : ∀ x ∈ c.pending, x.2 ≤ c.clock
+
+theorem sysInv_init (A : Arith) (p : Params) (s0 : State) (clock : Rat) (h : s0.last ≤ clock) :
+    SysInv A p s0 (Sys.init s0 clock) [] where
+  lim := rfl
+  sorted := trivial
+  le_clock := by intro x hx; cases hx
+  base := h
+  evs := rfl
+  log := by intro d hd; cases hd
+  crit := trivial
+  pend := by intro x hx; cases hx
+
+theorem lookup_mem : ∀ (l : List (Nat × Rat)) (i : Nat) (st : Rat), l.lookup i = some st → (i, st) ∈ l
+  | [], _, _, h => by simp [List.lookup] at h
+  | (j, v) :: l, i, st, h => by
+    by_cases hij : i = j
+    · subst hij
+      simp [List.lookup] at h
+      subst h; exact List.mem_cons_self ..
+    · have : (i == j) = false := by simpa using hij
+      simp only [List.lookup, this] at h
+      exact List.mem_cons_of_mem _ (lookup_mem l i st h)
+
+theorem removeFirst_subset (i : Nat) : ∀ (l : List (Nat × Rat)) (x : Nat × Rat), x ∈ removeFirst i l → x ∈ l
+  | [], _, h => by simp [removeFirst] at h
+  | y :: l, x, h => by
+    unfold removeFirst at h
+    split at h
+    · exact List.mem_cons_of_mem _ h
+    · rcases List.mem_cons.1 h with h | h
+      · rw [h]; exact List.mem_cons_self ..
+      · exact List.mem_cons_of_mem _ (removeFirst_subset i l x h)
+
+theorem critInv_mono {s0 : State} {c c' : Rat} {nows : List Rat} (h : c ≤ c') :
+    ∀ {k : Option (Nat × Phase)}, critInv s0 c nows k → critInv s0 c' nows k
+  | none, _ => trivial
+  | some (_, .held _), hk => Rat.le_trans hk h
+  | some (_, .read _ _), hk => ⟨hk.1, Rat.le_trans hk.2.1 h, hk.2.2⟩
+  | some (_, .done _ _ _), hk => ⟨hk.1, Rat.le_trans hk.2 h⟩
+
+/-- every enabled step keeps the configuration the image of a sequential, non-decreasing run -/
+theorem step_inv {A : Arith} {p : Params} {s0 : State} {c c' : Sys} {nows : List Rat}
+    (hI : SysInv A p s0 c nows) (st : Step) (h : c.step A p st = some c') :
+    ∃ nows', SysInv A p s0 c' nows' := by
+  cases st with
+  | tick d =>
+    simp only [Sys.step] at h
+    split at h
+    · rename_i hd
+      injection h with h; subst h
+      have hc : c.clock ≤ c.clock + d := by grind
+      exact ⟨nows, ⟨hI.lim, hI.sorted, fun x hx => Rat.le_trans (hI.le_clock x hx) hc, Rat.le_trans hI.base hc,
+        hI.evs, hI.log, critInv_mono hc hI.crit, fun x hx => Rat.le_trans (hI.pend x hx) hc⟩⟩
+    · cases h
+  | call i =>
+    simp only [Sys.step] at h
+    injection h with h; subst h
+    refine ⟨nows, ⟨hI.lim, hI.sorted, hI.le_clock, hI.base, hI.evs, hI.log, hI.crit, ?_⟩⟩
+    intro x hx
+    rcases List.mem_cons.1 hx with hx | hx
+    · rw [hx]; exact Rat.le_refl
+    · exact hI.pend x hx
+  | lock i =>
+    simp only [Sys.step] at h
+    split at h
+    · rename_i stt hcrit hlook
+      injection h with h; subst h
+      have hm := lookup_mem _ _ _ hlook
+      refine ⟨nows, ⟨hI.lim, hI.sorted, hI.le_clock, hI.base, ?_, hI.log, hI.pend _ hm, ?_⟩⟩
+      · have := hI.evs
+        unfold sysEvs at this ⊢
+        rw [hcrit] at this
+        simpa [critEv] using this
+      · intro x hx
+        exact hI.pend x (removeFirst_subset i _ x hx)
+    · cases h
+  | now =>
+    simp only [Sys.step] at h
+    split at h
+    · rename_i i stt hcrit
+      injection h with h; subst h
+      have hk := hI.crit
+      rw [hcrit] at hk
+      refine ⟨nows, ⟨hI.lim, hI.sorted, hI.le_clock, hI.base, ?_, hI.log, ⟨hk, Rat.le_refl, hI.le_clock, hI.base⟩, hI.pend⟩⟩
+      have := hI.evs
+      unfold sysEvs at this ⊢
+      rw [hcrit] at this
+      simpa [critEv] using this
+    · cases h
+  | reserve =>
+    simp only [Sys.step] at h
+    split at h
+    · rename_i i stt now hcrit
+      injection h with h; subst h
+      have hk := hI.crit
+      rw [hcrit] at hk
+      obtain ⟨h1, h2, h3, h4⟩ := hk
+      refine ⟨nows ++ [now], ⟨?_, sortedFrom_snoc hI.sorted h3 h4, ?_, hI.base, ?_, hI.log, ⟨h1, h2⟩, hI.pend⟩⟩
+      · show (allow A p c.lim now).2 = fin A p s0 (nows ++ [now])
+        rw [fin_append, hI.lim]
+      · intro x hx
+        rcases List.mem_append.1 hx with hx | hx
+        · exact hI.le_clock x hx
+        · have : x = now := by simpa using hx
+          rw [this]; exact h2
+      · have := hI.evs
+        unfold sysEvs at this ⊢
+        rw [hcrit] at this
+        simp only [critEv, List.append_nil] at this
+        show c.log.reverse.map doneEv ++ critEv (some (i, Phase.done stt now (allow A p c.lim now).1)) = _
+        rw [trace_append, ← this, hI.lim]
+        rfl
+    · cases h
+  | ret =>
+    simp only [Sys.step] at h
+    split at h
+    · rename_i i stt now ok hcrit
+      injection h with h; subst h
+      have hk := hI.crit
+      rw [hcrit] at hk
+      refine ⟨nows, ⟨hI.lim, hI.sorted, hI.le_clock, hI.base, ?_, ?_, trivial, hI.pend⟩⟩
+      · have := hI.evs
+        unfold sysEvs at this ⊢
+        rw [hcrit] at this
+        simp only [critEv] at this
+        show ({ start := stt, now := now, fin := c.clock, ok := ok } :: c.log).reverse.map doneEv ++ critEv none = _
+        rw [← this]
+        simp [critEv, doneEv]
+      · intro d hd
+        rcases List.mem_cons.1 hd with hd | hd
+        · rw [hd]; exact ⟨hk.1, hk.2⟩
+        · exact hI.log d hd
+    · cases h
+
+theorem exec_inv {A : Arith} {p : Params} {s0 : State} :
+    ∀ (steps : List Step) {c c' : Sys} {nows : List Rat}, SysInv A p s0 c nows →
+      Sys.exec A p c steps = some c' → ∃ nows', SysInv A p s0 c' nows'
+  | [], c, c', nows, hI, h => by
+    simp only [Sys.exec] at h
+    injection h with h; subst h
+    exact ⟨nows, hI⟩
+  | st :: rest, c, c', nows, hI, h => by
+    simp only [Sys.exec] at h
+    split at h
+    · cases h
+    · rename_i c1 hstep
+      obtain ⟨nows1, hI1⟩ := step_inv hI st hstep
+      exact exec_inv rest hI1 h
+
+/-- an admitted call that lies inside the window has its clock reading inside the window -/
+theorem admittedWithin_le_countIn (t0 t1 : Rat) : ∀ (log : List Done),
+    (∀ d ∈ log, d.start ≤ d.now ∧ d.now ≤ d.fin) → admittedWithin t0 t1 log ≤ countIn t0 t1 (log.map doneEv)
+  | [], _ => by simp [admittedWithin, countIn]
+  | d :: r, h => by
+    have ih := admittedWithin_le_countIn t0 t1 r (fun x hx => h x (List.mem_cons_of_mem _ hx))
+    have hd := h d (List.mem_cons_self ..)
+    simp only [admittedWithin, List.map_cons, countIn, doneEv]
+    by_cases hc : d.ok = true ∧ t0 ≤ d.start ∧ d.fin ≤ t1
+    · have : d.ok = true ∧ t0 ≤ d.now ∧ d.now ≤ t1 :=
+        ⟨hc.1, Rat.le_trans hc.2.1 hd.1, Rat.le_trans hd.2 hc.2.2⟩
+      simp only [hc, this, and_self, if_true]; omega
+    · simp only [hc, if_false]
+      split <;> omega
+
+theorem admittedWithin_le_trace {A : Arith} {p : Params} {s0 : State} {c : Sys} {nows : List Rat}
+    (hI : SysInv A p s0 c nows) (t0 t1 : Rat) :
+    admittedWithin t0 t1 c.log ≤ countIn t0 t1 (trace A p s0 nows) := by
+  have h1 := admittedWithin_le_countIn t0 t1 c.log hI.log
+  have h2 : countIn t0 t1 (c.log.map doneEv) = countIn t0 t1 (c.log.reverse.map doneEv) := by
+    rw [List.map_reverse, countIn_reverse]
+  have h3 : countIn t0 t1 (sysEvs c) = countIn t0 t1 (c.log.reverse.map doneEv) + countIn t0 t1 (critEv c.crit) := by
+    unfold sysEvs; exact countIn_append ..
+  rw [← hI.evs]
+  omega
+
+
+/-! ### the integer forms used by the run-time judges -/
+
+theorem capacity_eq (p : Params) (T : Rat) : capacity p T = (p.burst : Rat) + T * K p := by
+  unfold capacity K; rw [Rat.div_def, Rat.div_def]; grind
+
+theorem nsWorth_eq (p : Params) : nsWorth p = K p := rfl
+
+/-- a count bounded by `capacity + K` is bounded by the integer bound of the run-time judge -/
+theorem le_boundInt {p : Params} {T : Rat} {n : Nat} (h : (n : Rat) ≤ capacity p T + K p) :
+    (n : Int) ≤ boundInt p T := by
+  unfold boundInt
+  rw [nsWorth_eq]
+  have h1 : capacity p T ≤ ((capacity p T).ceil : Rat) := Rat.le_ceil
+  have h2 : K p < (((K p).floor + 1 : Int) : Rat) := Rat.lt_floor_add_one _
+  have h3 : (((K p).floor + 1 : Int) : Rat) = ((K p).floor : Rat) + 1 := by simp [Rat.intCast_add]
+  have h4 : (n : Rat) < (((capacity p T).ceil + (K p).floor + 1 : Int) : Rat) := by
+    have : (((capacity p T).ceil + (K p).floor + 1 : Int) : Rat)
+        = ((capacity p T).ceil : Rat) + ((K p).floor : Rat) + 1 := by simp [Rat.intCast_add]
+    rw [this]; grind
+  have h5 : (((n : Int)) : Rat) < (((capacity p T).ceil + (K p).floor + 1 : Int) : Rat) := by
+    rw [Rat.intCast_natCast]; exact h4
+  have := Rat.intCast_lt_intCast.1 h5
+  omega
+
+theorem owed_le_burst (p : Params) (hb : 0 ≤ p.burst) (d : Rat) : ((owed p d : Nat) : Rat) ≤ (p.burst : Rat) := by
+  unfold owed
+  have h1 : min p.burst (p.limit * d / 1000000000).floor ≤ p.burst := Int.min_le_left _ _
+  have h2 : (((min p.burst (p.limit * d / 1000000000).floor).toNat : Nat) : Int) ≤ p.burst := by omega
+  have h3 : ((((min p.burst (p.limit * d / 1000000000).floor).toNat : Nat) : Int) : Rat) ≤ (p.burst : Rat) :=
+    Rat.intCast_le_intCast.2 h2
+  rwa [Rat.intCast_natCast] at h3
+
+theorem owed_le_refill (p : Params) (d : Rat) (hd : 0 ≤ d * K p) : ((owed p d : Nat) : Rat) ≤ d * K p := by
+  unfold owed
+  have hK : p.limit * d / 1000000000 = d * K p := by
+    unfold K; rw [Rat.div_def, Rat.div_def]; grind
+  rw [hK]
+  by_cases h0 : min p.burst (d * K p).floor ≤ 0
+  · have : (min p.burst (d * K p).floor).toNat = 0 := Int.toNat_eq_zero.2 h0
+    rw [this]; simpa using hd
+  · have h1 : (((min p.burst (d * K p).floor).toNat : Nat) : Int) = min p.burst (d * K p).floor :=
+      Int.toNat_of_nonneg (by omega)
+    have h2 : min p.burst (d * K p).floor ≤ (d * K p).floor := Int.min_le_right _ _
+    have h3 : ((((min p.burst (d * K p).floor).toNat : Nat) : Int) : Rat) ≤ (((d * K p).floor : Int) : Rat) :=
+      Rat.intCast_le_intCast.2 (by omega)
+    rw [Rat.intCast_natCast] at h3
+    exact Rat.le_trans h3 (Rat.floor_le _)
+
+
+/-! ### the judges on traces -/
+
+/-- **Upper bound, every window, every arrival pattern** (any arithmetic satisfying `ArithOK`):
+    from any limiter state satisfying the invariant, for calls whose clock readings are non-decreasing,
+    the number admitted with reading in `[t0, t1]` is at most `burst + qps·(t1−t0) + q·(qps/10^9)`. -/
+theorem upper_window {A : Arith} {q D : Rat} (hA : ArithOK A q D) {p : Params} (hV : Valid p q D)
+    (s : State) (hI : Inv A p s) (nows : List Rat) (hs : sortedFrom s.last nows)
+    (t0 t1 : Rat) (h01 : t0 ≤ t1) :
+    (countIn t0 t1 (trace A p s nows) : Rat) ≤ (p.burst : Rat) + (t1 - t0) * K p + q * K p := by
+  have := countIn_bound hA hV t0 t1 h01 nows s hI hs
+  grind
+
+/-- **the run-time judge holds on every trace** (`q ≤ 1`: both arithmetics) -/
+theorem upperOK_trace {A : Arith} {q D : Rat} (hA : ArithOK A q D) (hq : q ≤ 1) {p : Params} (hV : Valid p q D)
+    (s : State) (hI : Inv A p s) (nows : List Rat) (hs : sortedFrom s.last nows) :
+    upperOK p (trace A p s nows) = true := by
+  unfold upperOK
+  rw [List.all_eq_true]
+  intro a _
+  by_cases ha : a.2 = true
+  · simp only [ha, Bool.not_true, Bool.false_or]
+    rw [List.all_eq_true]
+    intro b _
+    by_cases hb : b.2 = true
+    · simp only [hb, Bool.not_true, Bool.false_or]
+      by_cases hab : a.1 ≤ b.1
+      · simp only [hab, decide_true, Bool.not_true, Bool.false_or, decide_eq_true_eq]
+        apply le_boundInt
+        have h1 := upper_window hA hV s hI nows hs a.1 b.1 hab
+        have h2 := mul_K_nonneg hV.limit_pos hA.q_nonneg
+        have h3 : q * K p ≤ 1 * K p := mul_le_mul_K hV.limit_pos hq
+        rw [capacity_eq]
+        grind
+      · simp [hab]
+    · simp [hb]
+  · simp [ha]
+
+/-- **Never stricter than configured**: from any state satisfying the invariant, after `now - s.last` without a
+    call, the next `k` calls are admitted whenever `k ≤ burst` and `k ≤ qps·idle` — whatever their (later)
+    timestamps. Holds exactly, also with the nanosecond truncation. -/
+theorem lower_idle {A : Arith} {q D : Rat} (hA : ArithOK A q D) {p : Params} (hV : Valid p q D)
+    (s : State) (hI : Inv A p s) (now : Rat) (rest : List Rat) (h : s.last ≤ now)
+    (k : Nat) (hkB : (k : Rat) ≤ (p.burst : Rat)) (hkT : (k : Rat) ≤ (now - s.last) * K p) :
+    refusedAmong k (trace A p s (now :: rest)) = 0 := by
+  apply refusedAmong_zero hA hV k (now :: rest) s hI hkB
+  intro now' rest' he
+  have : now' = now := by injection he with h1 _; exact h1.symm
+  subst this
+  exact idle_level hA hV hI h Rat.natCast_nonneg hkB hkT
+
+/-- the run-time judge `lowerOK` (with no slack) holds on every trace with non-decreasing clock readings:
+    after every gap, `min(burst, ⌊qps·gap⌋)` calls are admitted -/
+theorem lowerOK_trace {A : Arith} {q D : Rat} (hA : ArithOK A q D) {p : Params} (hV : Valid p q D) :
+    ∀ (nows : List Rat) (s : State) (prev : Rat), Inv A p s → s.last ≤ prev → sortedFrom prev nows →
+      lowerOK p 0 prev (trace A p s nows) = true
+  | [], _, _, _, _, _ => by simp [trace, lowerOK]
+  | now :: rest, s, prev, hI, hp, hs => by
+    have hnow : s.last ≤ now := Rat.le_trans hp hs.1
+    have hd : 0 ≤ (now - prev) * K p := mul_K_nonneg hV.limit_pos (by have := hs.1; grind)
+    have hk1 := owed_le_burst p hV.burst_nonneg (now - prev)
+    have hk2 := owed_le_refill p (now - prev) hd
+    have hk3 : (now - prev) * K p ≤ (now - s.last) * K p := mul_le_mul_K hV.limit_pos (by grind)
+    have h0 := lower_idle hA hV s hI now rest hnow (owed p (now - prev)) hk1 (Rat.le_trans hk2 hk3)
+    have hI' : Inv A p (allow A p s now).2 := allow_inv hA hV hI now
+    have hlast : (allow A p s now).2.last ≤ now := by
+      rcases allow_cases A p s now with ⟨_, _, he⟩ | he
+      · rw [he]; exact Rat.le_refl
+      · rw [he]; show advLast s now ≤ now; exact advLast_le s now
+    have ih := lowerOK_trace hA hV rest (allow A p s now).2 now hI' hlast hs.2
+    have h0' : refusedAmong (owed p (now - prev)) ((now, (allow A p s now).1) :: trace A p (allow A p s now).2 rest) = 0 := h0
+    simp only [trace, lowerOK]
+    simp [h0', ih]
+
+
+/-! ### parameters, `float32` -/
+
+/-- `float32(n) ≥ 1` for `n ≥ 1` -/
+theorem f32_pos (n : Nat) (h : 1 ≤ n) : 1 ≤ f32 n := by
+  unfold f32
+  split
+  · exact h
+  · rename_i hbig
+    have hn : n ≠ 0 := by omega
+    have h1 : 2 ^ n.log2 ≤ n := Nat.log2_self_le hn
+    have h2 : 2 ^ (n.log2 - 23) ≤ 2 ^ n.log2 := Nat.pow_le_pow_right (by decide) (Nat.sub_le _ _)
+    have h3 : 0 < 2 ^ (n.log2 - 23) := Nat.two_pow_pos _
+    have hq : 1 ≤ n >>> (n.log2 - 23) := by
+      rw [Nat.shiftRight_eq_div_pow]
+      exact Nat.div_pos (Nat.le_trans h2 h1) h3
+    simp only []
+    rw [Nat.shiftLeft_eq]
+    have : 1 ≤ (if (n - (n >>> (n.log2 - 23)) <<< (n.log2 - 23) > 1 <<< (n.log2 - 23 - 1) ||
+        n - (n >>> (n.log2 - 23)) <<< (n.log2 - 23) == 1 <<< (n.log2 - 23 - 1) && n >>> (n.log2 - 23) % 2 == 1) = true
+        then n >>> (n.log2 - 23) + 1 else n >>> (n.log2 - 23)) := by
+      split <;> omega
+    exact Nat.mul_le_mul this h3
+
+/-- every `(qps, burst)` with `qps ≥ 1` that fits `uint32` (what `Resize` takes; schemas are `int32`) gives a valid
+    limiter configuration: the saturation of `Time.Sub` and the overflow of `time.Duration` are out of reach -/
+theorem params_valid (qps burst : Nat) (hq : 1 ≤ qps) (hb : burst < 4294967296) :
+    Valid (paramsOf qps burst) 1 (maxDuration : Rat) := by
+  have hf := f32_pos qps hq
+  have hL : (1 : Rat) ≤ ((f32 qps : Nat) : Rat) := by exact_mod_cast hf
+  have hL0 : 0 < (paramsOf qps burst).limit := by show (0 : Rat) < ((f32 qps : Nat) : Rat); grind
+  refine ⟨hL0, by show (0 : Int) ≤ ((burst : Nat) : Int); omega, ?_⟩
+  have hKi := Ki_pos hL0
+  -- Ki ≤ 10^9
+  have h1 : Ki (paramsOf qps burst) * (paramsOf qps burst).limit = 1000000000 := by
+    have : (paramsOf qps burst).limit ≠ 0 := by grind
+    unfold Ki; grind
+  have h2 : Ki (paramsOf qps burst) * 1 ≤ Ki (paramsOf qps burst) * (paramsOf qps burst).limit :=
+    Rat.mul_le_mul_of_nonneg_left hL (by grind)
+  have h3 : Ki (paramsOf qps burst) ≤ 1000000000 := by grind
+  have hb' : (((paramsOf qps burst).burst : Int) : Rat) ≤ 4294967295 := by
+    show (((burst : Nat) : Int) : Rat) ≤ 4294967295
+    have h : ((burst : Nat) : Int) ≤ (4294967295 : Int) := by omega
+    have h' := Rat.intCast_le_intCast.2 h
+    have : (((4294967295 : Int)) : Rat) = 4294967295 := by decide +kernel
+    rw [this] at h'; exact h'
+  have hb0 : (0 : Rat) ≤ (((paramsOf qps burst).burst : Int) : Rat) := by
+    show (0 : Rat) ≤ (((burst : Nat) : Int) : Rat)
+    have h : (0 : Int) ≤ ((burst : Nat) : Int) := by omega
+    have h' := Rat.intCast_le_intCast.2 h
+    simpa using h'
+  have h4 : (((paramsOf qps burst).burst : Int) : Rat) * Ki (paramsOf qps burst)
+      ≤ (((paramsOf qps burst).burst : Int) : Rat) * 1000000000 := Rat.mul_le_mul_of_nonneg_left h3 hb0
+  have h5 : (((paramsOf qps burst).burst : Int) : Rat) * 1000000000 ≤ 4294967295 * 1000000000 :=
+    Rat.mul_le_mul_of_nonneg_right hb' (by decide)
+  have h6 : (4294967295 * 1000000000 + 1 : Rat) ≤ (maxDuration : Rat) := by decide +kernel
+  grind
+
+
+/-! ### whole histories -/
+
+theorem resize_same (b : Bucket) : b.resize b.qps b.burst = (false, b) := by
+  simp [Bucket.resize]
+
+theorem resize_changed (b : Bucket) (n burst : Nat) (h : b.qps ≠ n ∨ b.burst ≠ burst) :
+    b.resize n burst = (true, Bucket.new n burst) := by
+  simp [Bucket.resize, h]
+
+theorem qps_zero (A : Arith) (b : Bucket) (h : b.qps = 0) (now : Rat) : b.tryAcquire A now = (false, b) := by
+  simp [Bucket.tryAcquire, h]
+
+theorem upperOK_refused (p : Params) : ∀ (ev : List Event), (∀ e ∈ ev, e.2 = false) → upperOK p ev = true := by
+  intro ev h
+  unfold upperOK
+  rw [List.all_eq_true]
+  intro a ha
+  simp [h a ha]
+
+theorem owed_zero (burst : Nat) (d : Rat) : owed (paramsOf 0 burst) d = 0 := by
+  unfold owed paramsOf
+  have h0 : f32 0 = 0 := by decide
+  simp only [h0]
+  have : ((((0 : Nat) : Rat)) * d / 1000000000).floor = 0 := by
+    have : (((0 : Nat) : Rat)) * d / 1000000000 = ((0 : Int) : Rat) := by
+      rw [Rat.div_def]; simp
+    rw [this, Rat.floor_intCast]
+  rw [this]
+  have : min ((burst : Nat) : Int) 0 ≤ 0 := Int.min_le_right _ _
+  exact Int.toNat_eq_zero.2 this
+
+theorem lowerOK_qps_zero (burst : Nat) : ∀ (ev : List Event) (prev : Rat),
+    lowerOK (paramsOf 0 burst) 0 prev ev = true
+  | [], _ => rfl
+  | e :: r, prev => by
+    simp only [lowerOK, owed_zero, refusedAmong, lowerOK_qps_zero burst r e.1]
+    simp
+
+/-- the bucket `b`, the segment `seg` accumulated by the judge (newest first) and `hi` (no later than any
+    reading to come) describe a sequential run of the current limiter since its creation -/
+def SegInv (A : Arith) (b : Bucket) (seg : List Event) (hi : Rat) : Prop :=
+  (b.qps = 0 ∧ ∀ e ∈ seg, e.2 = false) ∨
+  (b.qps ≠ 0 ∧ ∃ done : List Rat, seg = (trace A b.params State.init done).reverse ∧
+      b.lim = fin A b.params State.init done ∧ sortedFrom 0 done ∧ ∀ x ∈ done, x ≤ hi)
+
+theorem sortedFrom_mem_ge : ∀ {l : List Rat} {a : Rat}, sortedFrom a l → ∀ x ∈ l, a ≤ x
+  | [], _, _, _, hx => by cases hx
+  | y :: l, a, hs, x, hx => by
+    rcases List.mem_cons.1 hx with h | h
+    · rw [h]; exact hs.1
+    · exact Rat.le_trans hs.1 (sortedFrom_mem_ge hs.2 x h)
+
+section
+variable {A : Arith} {q D : Rat} (hA : ArithOK A q D) (hq : q ≤ 1)
+  (hvalid : ∀ qps burst : Nat, 1 ≤ qps → burst < 4294967296 → Valid (paramsOf qps burst) q D)
+include hA hq hvalid
+
+/-- a segment satisfying the invariant passes the two judges -/
+theorem seg_judged {b : Bucket} {seg : List Event} {hi : Rat} (hb : b.burst < 4294967296)
+    (h : SegInv A b seg hi) :
+    upperOK (paramsOf b.qps b.burst) seg.reverse = true ∧ lowerOK (paramsOf b.qps b.burst) 0 0 seg.reverse = true := by
+  rcases h with ⟨h0, hall⟩ | ⟨h0, done, hseg, _, hs, _⟩
+  · rw [h0]
+    refine ⟨upperOK_refused _ _ ?_, lowerOK_qps_zero _ _ _⟩
+    intro e he
+    exact hall e (List.mem_reverse.1 he)
+  · have hV := hvalid b.qps b.burst (by omega) hb
+    have hI := inv_init A (paramsOf b.qps b.burst) hV.burst_nonneg
+    rw [hseg, List.reverse_reverse]
+    exact ⟨upperOK_trace hA hq hV State.init hI done hs,
+      lowerOK_trace hA hV done State.init 0 hI Rat.le_refl hs⟩
+
+/-- **Every history** of acquires (non-decreasing clock readings) and resizes is accepted by the judge that the
+    harness applies to the real code: `Resize` answers `true` exactly when `(qps, burst)` changes, and every
+    stretch between two effective resizes satisfies the upper bound on all its windows and owes
+    `min(burst, ⌊qps·idle⌋)` after every idle period, starting full. -/
+theorem judge_history : ∀ (ops : List Op) (b : Bucket) (seg : List Event) (hi : Rat),
+    b.burst < 4294967296 → opsFit ops → 0 ≤ hi → sortedFrom hi (opTimes ops) → SegInv A b seg hi →
+    judgeGo 0 b.qps b.burst seg allTrue (observe A b ops) = allTrue
+  | [], b, seg, hi, hb, _, _, _, hS => by
+    have := seg_judged hA hq hvalid hb hS
+    simp [observe, judgeGo, allTrue, this.1, this.2]
+  | .acquire now :: r, b, seg, hi, hb, hf, h0, hs, hS => by
+    simp only [observe, judgeGo]
+    have hnow : hi ≤ now := hs.1
+    have h0' : 0 ≤ now := Rat.le_trans h0 hnow
+    have key : SegInv A (b.tryAcquire A now).2 ((now, (b.tryAcquire A now).1) :: seg) now := by
+      rcases hS with ⟨hz, hall⟩ | ⟨hnz, done, hseg, hlim, hsd, hle⟩
+      · left
+        rw [qps_zero A b hz now]
+        refine ⟨hz, ?_⟩
+        intro e he
+        rcases List.mem_cons.1 he with he | he
+        · rw [he]
+        · exact hall e he
+      · right
+        simp only [Bucket.tryAcquire, hnz, if_false]
+        refine ⟨hnz, done ++ [now], ?_, ?_, ?_, ?_⟩
+        · show (now, (allow A b.params b.lim now).1) :: seg = (trace A b.params State.init (done ++ [now])).reverse
+          rw [trace_append, List.reverse_append, hseg, hlim]
+          rfl
+        · show (allow A b.params b.lim now).2 = fin A b.params State.init (done ++ [now])
+          rw [fin_append, hlim]
+        · exact sortedFrom_snoc hsd (fun x hx => Rat.le_trans (hle x hx) hnow) h0'
+        · intro x hx
+          rcases List.mem_append.1 hx with hx | hx
+          · exact Rat.le_trans (hle x hx) hnow
+          · have : x = now := by simpa using hx
+            rw [this]; exact Rat.le_refl
+    have hq' : (b.tryAcquire A now).2.qps = b.qps := by
+      unfold Bucket.tryAcquire; split <;> rfl
+    have hb' : (b.tryAcquire A now).2.burst = b.burst := by
+      unfold Bucket.tryAcquire; split <;> rfl
+    have ih := judge_history r (b.tryAcquire A now).2 _ now (by rw [hb']; exact hb) hf h0' hs.2 key
+    rw [hq', hb'] at ih
+    exact ih
+  | .resize qn bn :: r, b, seg, hi, hb, hf, h0, hs, hS => by
+    simp only [observe, judgeGo]
+    by_cases hch : b.qps ≠ qn ∨ b.burst ≠ bn
+    · -- an effective resize: the segment is judged, a fresh bucket starts
+      have hres : b.resize qn bn = (true, Bucket.new qn bn) := resize_changed b qn bn hch
+      have hdec : decide (qn ≠ b.qps ∨ bn ≠ b.burst) = true := by
+        have : qn ≠ b.qps ∨ bn ≠ b.burst := by
+          rcases hch with h | h
+          · exact Or.inl (fun e => h e.symm)
+          · exact Or.inr (fun e => h e.symm)
+        simp [this]
+      have hj := seg_judged hA hq hvalid hb hS
+      rw [hres]
+      simp only [hdec, if_true]
+      have hnew : SegInv A (Bucket.new qn bn) [] hi := by
+        by_cases hz : qn = 0
+        · left; exact ⟨hz, by intro e he; cases he⟩
+        · right
+          exact ⟨hz, [], rfl, rfl, trivial, by intro x hx; cases hx⟩
+      have ih := judge_history r (Bucket.new qn bn) [] hi hf.1 hf.2 h0 hs hnew
+      simp only [hj.1, hj.2, allTrue, Bool.and_self, beq_self_eq_true] at ih ⊢
+      exact ih
+    · -- unchanged parameters: nothing happens
+      have hsame : b.qps = qn ∧ b.burst = bn := by
+        constructor
+        · exact Classical.byContradiction fun h => hch (Or.inl h)
+        · exact Classical.byContradiction fun h => hch (Or.inr h)
+      have hres : b.resize qn bn = (false, b) := by
+        rw [← hsame.1, ← hsame.2]; exact resize_same b
+      have hdec : decide (qn ≠ b.qps ∨ bn ≠ b.burst) = false := by
+        simp [hsame.1, hsame.2]
+      rw [hres]
+      simp only [hdec]
+      have ih := judge_history r b seg hi hb hf.2 h0 hs hS
+      simp only [allTrue, Bool.and_self, beq_self_eq_true, Bool.false_eq_true, if_false] at ih ⊢
+      exact ih
+
+end
+
 end KG.Lemmas.TokenBucket
